@@ -521,7 +521,7 @@ def register_chain2(reg, stubs, world):
     from specs.external import fs_exists, fs_mtime, fs_content, fs_eacces
     from specs.wf import wf_tree, tree_axioms
 
-    # ------------------------------------------------------------------ Rules.load (trusted: parser + yaml)
+    # ------------------------------------------------------------------ Rules.load
     def rl_post(cx, out):
         eng = cx.eng
         d = V.s(cx['data'])
@@ -531,23 +531,30 @@ def register_chain2(reg, stubs, world):
         k = z3.String('rl!k')
         m = V.m(eng.val(out.st, r))
         e = z3.Select(m, k)
-        return [parse_ok(d), V.is_obj(r), clsof(V.ref(r)) == eng.cid('Rules'), V.ref(r) >= cx.st0.ap,
-                V.is_dict(eng.val(out.st, r)),
-                eng.get(out.st, r, 'default_rule') == cx['default_rule'],
-                qforall([k], (e != ABSENT) == (z3.Select(parsed_of(d), k) != ABSENT), patterns=[e]),
-                qforall([k], z3.Implies(e != ABSENT, z3.And(V.is_obj(e), V.ref(e) >= cx.st0.ap, eng.isinst(e, 'BaseCheck'),
-                                                            wf_tree(e))), patterns=[e])]
+        return [('only-for-text-that-is-a-mapping', parse_ok(d)),
+                ('returns-a-fresh-Rules-object', z3.And(V.is_obj(r), clsof(V.ref(r)) == eng.cid('Rules'), V.ref(r) >= cx.st0.ap,
+                                                        V.ref(r) < out.st.ap, V.is_dict(eng.val(out.st, r)))),
+                ('with-the-given-default-rule', eng.get(out.st, r, 'default_rule') == cx['default_rule']),
+                ('holding-exactly-the-names-in-the-text', qforall([k], (e != ABSENT) == (z3.Select(parsed_of(d), k) != ABSENT), patterns=[e])),
+                ('each-as-a-fresh-well-formed-check', qforall([k], z3.Implies(e != ABSENT, z3.And(
+                    V.is_obj(e), V.ref(e) >= cx.st0.ap, V.ref(e) < out.st.ap, eng.isinst(e, 'BaseCheck'), wf_tree(e))), patterns=[e]))]
 
     def fresh_only(cx, f, old, new):
         r = z3.Int('rl!r')
         return [qforall([r], z3.Implies(r < cx.st0.ap, z3.Select(new, r) == z3.Select(old, r)), patterns=[z3.Select(new, r)])]
+    def rl_elem(eng, key, val, ap0, ap1):
+        return [('each-value-is-a-fresh-well-formed-check', z3.And(V.is_obj(val), V.ref(val) >= ap0, V.ref(val) < ap1,
+                                                                  eng.isinst(val, 'BaseCheck'), wf_tree(val)))]
     reg.add(Contract('policy:Rules.load', pre=lambda cx: [V.is_str(cx['data'])], post=rl_post, raises=('ValueError',),
-                     allocates=True, trusted=os.environ.get('VERIF_WIP') != '1', modifies=('rules', 'rule', 'kind', 'match', '$val', 'default_rule'),
+                     loops={1: LoopSpec(alloc_elem=rl_elem, havoc=('rules', 'rule', 'kind', 'match', '$val'))},
+                     allocates=True, modifies=('rules', 'rule', 'kind', 'match', '$val', 'default_rule'),
                      frame=fresh_only, preserves=('wf_tree', 'wf_eval', 'pr', 'tree_height'),
-                     assumptions=('ASSUMED (parse_file_contents + parse_rule, see those contracts): Rules.load returns a fresh Rules '
-                                  'object holding one fresh well-formed check per name of the mapping the text denotes, with the '
-                                  'given default rule; ValueError for text that is not a mapping',),
-                     doc='policy text to rule store'))
+                     assumptions=('the contracts of parse_file_contents (YAML/JSON) and parse_rule (parser driver) are assumed; the '
+                                  'dict comprehension is verified by the allocating-comprehension rule (element facts proved for an '
+                                  'arbitrary key in an arbitrary intermediate state, see pyvc/stmt.py comp_alloc)',),
+                     doc='policy text to rule store: a fresh Rules object holding one fresh well-formed check per name of the mapping '
+                         'the text denotes (no name dropped, none added), with the given default rule; ValueError for text that is '
+                         'not a mapping'))
 
     # ------------------------------------------------------------------ _load_policy_file
     def cache_ok(eng, st, cache):
